@@ -62,32 +62,39 @@ Fixpoint fits_all (os : list opspec) (toks : list token) : bool :=
 (** What it means for a reader [f] of one operand / of a whole operand list. *)
 Definition spec1 {A} (o : opspec) (f : res (A * pst)) (toks : list token) : Prop :=
   match f with
-  | Ok (_, (r, _)) => exists t, toks = t :: r /\ fits o t = true
+  | Ok (_, (r, te')) => exists t, toks = t :: r /\ fits o t = true /\ te' = tend t
   | Err _ _ _ => match toks with [] => True | t :: _ => fits o t = false end
   | Bad _ => False
   end.
 
-Definition specL {A} (os : list opspec) (f : res (A * pst)) (toks : list token) : Prop :=
+(** End of the last token read ([te]: the end recorded before). *)
+Definition last_end (read : list token) (te : N) : N := fold_left (fun _ t => tend t) read te.
+
+Definition specL {A} (os : list opspec) (f : res (A * pst)) (toks : list token) (te : N) : Prop :=
   match f with
-  | Ok (_, (r, _)) => fits_all os toks = true /\ r = skipn (length os) toks
+  | Ok (_, (r, te')) => fits_all os toks = true /\ r = skipn (length os) toks /\
+                        te' = last_end (firstn (length os) toks) te
   | Err _ _ _ => fits_all os toks = false
   | Bad _ => False
   end.
 
-Lemma chain {A B} o os (f : res (A * pst)) toks (g : A * pst -> res (B * pst)) :
+Lemma chain {A B} o os (f : res (A * pst)) toks te (g : A * pst -> res (B * pst)) :
   spec1 o f toks ->
-  (forall a r te', f = Ok (a, (r, te')) -> specL os (g (a, (r, te'))) r) ->
-  specL (o :: os) (bind f g) toks.
+  (forall a r te', f = Ok (a, (r, te')) -> specL os (g (a, (r, te'))) r te') ->
+  specL (o :: os) (bind f g) toks te.
 Proof.
   intros H1 H2. destruct f as [[a [r te']]| |]; cbn [bind spec1] in *.
-  - destruct H1 as (t & -> & Hf). specialize (H2 a r te' eq_refl).
-    unfold specL in *. cbn [fits_all length skipn]. rewrite Hf. cbn [andb]. exact H2.
+  - destruct H1 as (t & Et & Hf & Ee). subst toks te'. specialize (H2 a r (tend t) eq_refl).
+    unfold specL in *. cbn [fits_all length skipn firstn]. rewrite Hf. cbn [andb].
+    unfold pst in *. remember (g (a, (r, tend t))) as x eqn:Ex. clear Ex.
+    destruct x as [[b [r2 te2]]| |]; [|exact H2|exact H2].
+    destruct H2 as (A1 & A2 & A3). split; [exact A1|]. split; [exact A2|]. rewrite A3. reflexivity.
   - unfold specL. cbn [fits_all]. destruct toks as [|t r]; [reflexivity|]. rewrite H1. reflexivity.
   - contradiction.
 Qed.
 
-Lemma done_spec {A} (a : A) toks te : specL [] (Ok (a, (toks, te))) toks.
-Proof. cbn. split; reflexivity. Qed.
+Lemma done_spec {A} (a : A) toks te : specL [] (Ok (a, (toks, te))) toks te.
+Proof. cbn. repeat split; reflexivity. Qed.
 
 (* ------------------------------------------------------------------ *)
 (** * The operand readers meet their positions *)
@@ -97,7 +104,7 @@ Ltac fits_by E := unfold fits, lit_val; rewrite E; try reflexivity.
 Lemma expect_reg_spec toks te n : spec1 OReg (expect_reg (toks, te) n) toks.
 Proof.
   unfold expect_reg, spec1. cbn [fst]. destruct toks as [|t r]; [exact I|].
-  destruct (tk t) eqn:E; cbn [unexpected]; try (fits_by E; fail). exists t. split; [reflexivity|fits_by E].
+  destruct (tk t) eqn:E; cbn [unexpected]; try (fits_by E; fail). exists t. split; [reflexivity|]. split; [fits_by E|reflexivity].
 Qed.
 
 Lemma expect_lit_spec b toks te n : spec1 (OLit b) (expect_lit b (toks, te) n) toks.
@@ -105,13 +112,13 @@ Proof.
   unfold expect_lit, spec1. cbn [fst]. destruct toks as [|t r]; [exact I|].
   destruct (tk t) as [| | |l| | | | | | |] eqn:E; cbn [unexpected]; try (fits_by E; fail).
   destruct l as [v|v|]; try (fits_by E; fail);
-    (destruct (check_range b v) eqn:Ec; [exists t; split; [reflexivity|fits_by E; exact Ec]|fits_by E; exact Ec]).
+    (destruct (check_range b v) eqn:Ec; [exists t; split; [reflexivity|split; [fits_by E; exact Ec|reflexivity]]|fits_by E; exact Ec]).
 Qed.
 
 Lemma expect_label_spec sym toks te n : spec1 OLabel (expect_label sym (toks, te) n) toks.
 Proof.
   unfold expect_label, spec1. cbn [fst]. destruct toks as [|t r]; [exact I|].
-  destruct (tk t) eqn:E; cbn [unexpected]; try (fits_by E; fail). exists t. split; [reflexivity|fits_by E].
+  destruct (tk t) eqn:E; cbn [unexpected]; try (fits_by E; fail). exists t. split; [reflexivity|]. split; [fits_by E|reflexivity].
 Qed.
 
 Lemma expect_lit_or_reg_spec toks te n : spec1 ORegOrImm5 (expect_lit_or_reg (toks, te) n) toks.
@@ -120,11 +127,11 @@ Proof.
   unfold expect_lit_or_reg, spec1 in *. cbn [fst]. destruct toks as [|t r]; [exact I|].
   destruct (tk t) as [| | |l| | | | | | |] eqn:E; cbn [unexpected]; try (fits_by E; fail).
   - destruct (expect_lit (Signed 5) (t :: r, te) n) as [[v [r2 te2]]| |]; [| |contradiction].
-    + destruct Hl as (t0 & Et & Hf). exists t0. split; [exact Et|]. inversion Et; subst t0.
+    + destruct Hl as (t0 & Et & Hf & He). exists t0. split; [exact Et|]. inversion Et; subst t0. split; [|exact He].
       unfold fits, lit_val in *. rewrite E in *. exact Hf.
     + unfold fits, lit_val in *. rewrite E in *. exact Hl.
   - destruct (expect_reg (t :: r, te) n) as [[v [r2 te2]]| |]; [| |contradiction].
-    + destruct Hr as (t0 & Et & Hf). exists t0. split; [exact Et|]. inversion Et; subst t0. fits_by E.
+    + destruct Hr as (t0 & Et & Hf & He). exists t0. split; [exact Et|]. inversion Et; subst t0. split; [fits_by E|exact He].
     + exfalso. unfold fits in Hr. rewrite E in Hr. discriminate.
 Qed.
 
@@ -135,10 +142,10 @@ Proof.
   unfold expect_lit_or_label, spec1 in *. cbn [fst]. destruct toks as [|t r]; [exact I|].
   destruct (tk t) as [| | |l| | | | | | |] eqn:E; cbn [unexpected]; try (fits_by E; fail).
   - destruct (expect_label sym (t :: r, te) n) as [[v [r2 te2]]| |]; [| |contradiction].
-    + destruct Hr as (t0 & Et & Hf). exists t0. split; [exact Et|]. inversion Et; subst t0. fits_by E.
+    + destruct Hr as (t0 & Et & Hf & He). exists t0. split; [exact Et|]. inversion Et; subst t0. split; [fits_by E|exact He].
     + exfalso. unfold fits in Hr. rewrite E in Hr. discriminate.
   - destruct (expect_lit (Signed nbits) (t :: r, te) n) as [[v [r2 te2]]| |]; [| |contradiction].
-    + destruct Hl as (t0 & Et & Hf). exists t0. split; [exact Et|]. inversion Et; subst t0.
+    + destruct Hl as (t0 & Et & Hf & He). exists t0. split; [exact Et|]. inversion Et; subst t0. split; [|exact He].
       unfold fits, lit_val in *. rewrite E in *. exact Hf.
     + unfold fits, lit_val in *. rewrite E in *. exact Hl.
 Qed.
@@ -158,10 +165,10 @@ Ltac rd :=
 (** An instruction is accepted iff its operands fit [shape]; exactly those tokens are consumed;
     everything else is rejected; the parser never panics. *)
 Theorem parse_instr_accepts sym line k toks te n :
-  specL (shape k) (parse_instr sym line k (toks, te) n) toks.
+  specL (shape k) (parse_instr sym line k (toks, te) n) toks te.
 Proof. destruct k; cbn [parse_instr shape]; repeat rd. Qed.
 
-Theorem parse_trap_accepts k toks te n : specL (trap_shape k) (parse_trap k (toks, te) n) toks.
+Theorem parse_trap_accepts k toks te n : specL (trap_shape k) (parse_trap k (toks, te) n) toks te.
 Proof. destruct k; cbn [parse_trap trap_shape]; repeat rd. Qed.
 
 (** The same as an equivalence. *)
